@@ -379,7 +379,7 @@ def check_C04(ctx):
     pool = S.pool
     encs = [(r['tid'], r['h']['bytes']) for r in S.run_enc() if r['h'] and r['h']['st'] == '0']
     items = []
-    per = 40 if ctx.quick else 300
+    per = 40 if ctx.quick else 160
     seen = set()
     for tid, hx in encs:
         for kind, m in mutations(hx, ctx.rng, per):
